@@ -83,6 +83,13 @@ Next ==
   \/ \E lv \in {0, 1, 3} : Commit(lv)
   \/ GC \/ Reload \/ ReadRoot \/ Owners \/ SaveRoot \/ Rollback("rollback") \/ Rollback("rollbacktrie")
 
+\* the storage protocol only (updates, deletes, one commit level, staged garbage collection, checkpoint, rollback):
+\* deep exhaustive generation over a tiny content space
+NextGC ==
+  \/ \E k \in Keys : (\E v \in Vals : Update(k, v)) \/ Delete(k)
+  \/ Commit(0) \/ GC \/ SaveRoot \/ Rollback("rollback") \/ Rollback("rollbacktrie")
+SpecGC == Init /\ [][NextGC]_wvars
+
 Spec == Init /\ [][Next]_wvars
 
 \* every block number in range has exactly one owner, owners are monotone in b, intervals have the key's weight
